@@ -807,7 +807,10 @@ pub fn gen_c20(rng: &mut Rng, tier: Tier) -> Value {
             let used = keys.iter().filter(|k| js(k, "name", "") == n).map(|k| k["labels"].to_string()).collect();
             (n, used)
         } else {
-            (format!("{kind}{i}"), vec![])
+            // one name in twelve is long: 300, 1 100 or 5 000 bytes (peeked from a copy of the generator: no draw moves)
+            let peek = rng.clone().next_u64();
+            let pad = if peek % 12 == 0 { [300usize, 1_100, 5_000][(peek / 12 % 3) as usize] } else { 0 };
+            (format!("{kind}{i}{}", "n".repeat(pad)), vec![])
         };
         let mut ls = label_sets[rng.usize_below(label_sets.len())];
         let mut tries = 0;
